@@ -25,7 +25,10 @@ type Loaded struct {
 }
 
 // Load builds SSA for the given repo-relative package dirs (with -tags verif) and parses contracts.
-func Load(repo, verif string, dirs []string) (*Loaded, error) {
+func Load(repo, verif string, dirs []string) (*Loaded, error) { return LoadOpt(repo, verif, dirs, false) }
+
+// LoadOpt: with preferMirror the /verif/contracts copy overrides /repo's (development).
+func LoadOpt(repo, verif string, dirs []string, preferMirror bool) (*Loaded, error) {
 	overlay := map[string][]byte{}
 	ld := &Loaded{Pkgs: map[string]*ssa.Package{}}
 	contractSrc := map[string][]byte{}
@@ -48,7 +51,7 @@ func Load(repo, verif string, dirs []string) (*Loaded, error) {
 		m, _ := os.ReadFile(filepath.Join(mirror, d, "contracts_verif.go"))
 		rp := filepath.Join(repo, d, "contracts_verif.go")
 		r, err := os.ReadFile(rp)
-		if err != nil {
+		if err != nil || (preferMirror && string(r) != string(m)) {
 			overlay[rp] = m
 			contractSrc[d] = m
 			ld.Overlaid = append(ld.Overlaid, d)
